@@ -199,9 +199,19 @@ impl From<&IPFix> for NetflowCommon {
 
         for flowset in &value.flowsets {
             if let IPFixFlowSetBody::Data(data) = &flowset.body {
+                // The IPFIX parser emits one single-entry map per field, keyed by the field's
+                // position in the template: a flow record starts where that position is 0 again.
+                let mut records: Vec<BTreeMap<IPFixField, FieldValue>> = vec![];
                 for data_field in &data.fields {
-                    let value_map: BTreeMap<IPFixField, FieldValue> =
-                        data_field.values().cloned().collect();
+                    let starts_record = data_field.keys().next().is_none_or(|index| *index == 0);
+                    if starts_record || records.is_empty() {
+                        records.push(BTreeMap::new());
+                    }
+                    if let Some(record) = records.last_mut() {
+                        record.extend(data_field.values().cloned());
+                    }
+                }
+                for value_map in records {
                     flowsets.push(NetflowCommonFlowSet {
                         src_addr: value_map
                             .get(&IPFixField::SourceIpv4address)
